@@ -10,26 +10,27 @@ namespace Minicbor
 open Dec
 
 /-- `k` iterations take the loop from `(c, bs)` to `(c', bs')`, whatever the spare fuel. -/
-def Steps (k : Nat) (c : SkipSt) (bs : Bytes) (c' : SkipSt) (bs' : Bytes) : Prop :=
-  ∀ f, skipLoop true (f + 1 + k) c bs = skipLoop true (f + 1) c' bs'
+def Steps (alloc : Bool) (k : Nat) (c : SkipSt) (bs : Bytes) (c' : SkipSt) (bs' : Bytes) : Prop :=
+  ∀ f, skipLoop alloc (f + 1 + k) c bs = skipLoop alloc (f + 1) c' bs'
 
-theorem Steps.refl (c : SkipSt) (bs : Bytes) : Steps 0 c bs c bs := fun _ => rfl
+theorem Steps.refl (alloc : Bool) (c : SkipSt) (bs : Bytes) : Steps alloc 0 c bs c bs := fun _ => rfl
 
-theorem Steps.trans {k1 k2 : Nat} {c c1 c2 : SkipSt} {bs bs1 bs2 : Bytes}
-    (h1 : Steps k1 c bs c1 bs1) (h2 : Steps k2 c1 bs1 c2 bs2) : Steps (k1 + k2) c bs c2 bs2 := by
+theorem Steps.trans {alloc : Bool} {k1 k2 : Nat} {c c1 c2 : SkipSt} {bs bs1 bs2 : Bytes}
+    (h1 : Steps alloc k1 c bs c1 bs1) (h2 : Steps alloc k2 c1 bs1 c2 bs2) :
+    Steps alloc (k1 + k2) c bs c2 bs2 := by
   intro f
   have e : f + 1 + (k1 + k2) = (f + k2) + 1 + k1 := by omega
   rw [e, h1 (f + k2)]
   have e2 : f + k2 + 1 = f + 1 + k2 := by omega
   rw [e2, h2 f]
 
-theorem Steps.next {c s1 : SkipSt} {bs r : Bytes} (hrun : skipRunning true c = true)
-    (harm : skipArm true c bs = .ok (.next s1) r) : Steps 1 c bs (postSt true s1) r :=
-  fun f => loop_next true c s1 bs r f hrun harm
+theorem Steps.next {alloc : Bool} {c s1 : SkipSt} {bs r : Bytes} (hrun : skipRunning alloc c = true)
+    (harm : skipArm alloc c bs = .ok (.next s1) r) : Steps alloc 1 c bs (postSt alloc s1) r :=
+  fun f => loop_next alloc c s1 bs r f hrun harm
 
-theorem Steps.cont {c s1 : SkipSt} {bs r : Bytes} (hrun : skipRunning true c = true)
-    (harm : skipArm true c bs = .ok (.cont s1) r) : Steps 1 c bs s1 r :=
-  fun f => loop_cont true c s1 bs r (f + 1) hrun harm
+theorem Steps.cont {alloc : Bool} {c s1 : SkipSt} {bs r : Bytes} (hrun : skipRunning alloc c = true)
+    (harm : skipArm alloc c bs = .ok (.cont s1) r) : Steps alloc 1 c bs s1 r :=
+  fun f => loop_cont alloc c s1 bs r (f + 1) hrun harm
 
 theorem headW_length (m : Nat) (w : Width) (n : Nat) : (headW m w n).length = 1 + w.bytes := by
   simp [headW]; omega
@@ -49,7 +50,7 @@ theorem leaf_steps (bs : Bytes) (hpos : 1 ≤ bs.length)
     (harm : ∀ s rest, skipArm true s (bs ++ rest) = .ok (.next s) rest)
     (c : SkipSt) (a : Nat) (r : List Nat) (rest : Bytes)
     (hrel : Rel c (a :: r)) (hl : 1 ≤ a ∨ r ≠ []) :
-    ∃ k c', k ≤ bs.length ∧ Steps k c (bs ++ rest) c' rest ∧ Rel c' ((a - 1) :: r) :=
+    ∃ k c', k ≤ bs.length ∧ Steps true k c (bs ++ rest) c' rest ∧ Rel c' ((a - 1) :: r) :=
   ⟨1, postSt true c, hpos, Steps.next (rel_running hrel hl) (harm c rest), rel_item hrel⟩
 
 theorem satMul2_half (l : Nat) (he : l % 2 = 0) (hl : l ≤ U64MAX) : satMul2 (l / 2) = l := by
@@ -59,7 +60,7 @@ theorem satMul2_half (l : Nat) (he : l % 2 = 0) (hl : l ≤ U64MAX) : satMul2 (l
 
 /-- conclusion shape shared by the item- and list-level lemmas. -/
 def Reaches (c : SkipSt) (bs rest : Bytes) (T' : List Nat) : Prop :=
-  ∃ k c', k ≤ bs.length ∧ Steps k c (bs ++ rest) c' rest ∧ Rel c' T'
+  ∃ k c', k ≤ bs.length ∧ Steps true k c (bs ++ rest) c' rest ∧ Rel c' T'
 
 mutual
 /-- every valid item acts like a scalar: `a :: r ↦ (a - 1) :: r`, consuming exactly its bytes. -/
@@ -183,7 +184,7 @@ theorem items_steps : (xs : List WItem) → validAll xs = true → ∀ (c : Skip
     Reaches c (encWs xs) rest ((a - xs.length) :: r)
   | [], _, c, a, r, rest, hrel, _, _ => by
     simp only [encWs, List.length_nil, Nat.sub_zero]
-    exact ⟨0, c, by simp, Steps.refl _ _, hrel⟩
+    exact ⟨0, c, by simp, Steps.refl _ _ _, hrel⟩
   | x :: xs, hv, c, a, r, rest, hrel, hl, hb => by
     simp only [validAll, Bool.and_eq_true] at hv
     simp only [encWs, List.length_append, List.length_cons] at hb hl ⊢
